@@ -8,7 +8,7 @@ T = "c16_extensions"
 def jobs(tier):
     q = tier == "quick"
     return [
-        Job(T, "flt-asan", "random", workers=W, cases=10000 if q else 60000, maxtime=150 if q else 600),
+        Job(T, "flt-asan", "random", workers=W, cases=20000 if q else 60000, maxtime=150 if q else 600),
     ] + ([] if q else [Job(T, "flt-fuzz", "fuzz", fuzz_jobs=8, fuzz_time=180)])
 
 
